@@ -9,9 +9,10 @@
    PARTIAL: the theorems are about the micro-step model (one scheduling point per
    shared-table access; CPython rules R1-R4 stated there).  Missing for the full property:
    classes with JSON-path fields (refuted, F31), races inside a micro-step, C-extension GIL
-   release points, free-threaded builds, the v1 engine as a full program (only the
-   catch-all protocol is modelled). *)
-From DW Require Import PyStr T_ConcHooks ConcModel ConcProofs ConcLibProofs.
+   release points, free-threaded builds; of the v1 engine the FIRST LOAD of a class with nested
+   classes is a full program (section 8; classes with >= 2 AliasPath fields refuted, the v1 site
+   of F31), the v1 dump and explicit Alias(load=...) fields are not. *)
+From DW Require Import PyStr T_ConcHooks ConcModel ConcProofs ConcLibProofs ConcV1Model ConcV1Proofs.
 From Coq Require Import List.
 Import ListNotations.
 
@@ -221,3 +222,78 @@ Theorem C20_hook_table :
   nth_error conc_dump_hook_types IDX_str = Some (S "str").
 Proof. repeat split. Qed.
 Print Assumptions C20_hook_table.
+
+(* 8. The v1 engine: the complete FIRST LOAD of a v1 class with nested classes as a micro-step program
+      (coq/model/ConcV1Model.v lists every shared-table access in source order: CLASS_TO_LOAD_FUNC, _META,
+      FIELDS x3, FIELD_TO_DEFAULT fill-then-publish, CLASS_TO_V1_LOADER, IS_V1_LOAD_CONFIG_SETUP and the set-up
+      that fills the alias / path tables, the reads of the alias table during generation AND the key-case
+      aliases generation writes back into it, the nested generations under the recursion guard, setattr,
+      store).  For EVERY class environment without AliasPath fields - any nesting, shared nested classes,
+      key-case transform or not, CatchAll field, defaults, wizard subclass or function API, loader bound at
+      definition time or not - the program is memo-shaped: every write stores an admissible value and the
+      result does not depend on whether any read hits or misses. *)
+Theorem C20_v1_load_plain :
+  forall (env : v1env) (tid c : nat) K, v1_no_paths env ->
+    memo_prog R_v1 Imp_v1 K (call_v1_load tid env c) [OSeq].
+Proof. exact v1_load_plain. Qed.
+Print Assumptions C20_v1_load_plain.
+
+(* ... hence (C20_memo_linearizable instantiated): any number of threads, thread i making the first (or a
+   later) v1 loads of the classes pss[i] one after the other - the same class, or different classes that share
+   nested classes -: under EVERY schedule every load of a finished thread returned the sequential result and no
+   table holds a non-admissible value (in particular no half-initialised class is left behind) *)
+Theorem C20_v1_linearizable :
+  forall (env : v1env) (pss : list (list nat)), v1_no_paths env ->
+  forall (sched : list nat) (i : nat) (t : thread) (os : list outcome),
+    nth_error (snd (run sched (v1_scenario env pss))) i = Some t ->
+    finished t = Some os ->
+    (exists cs, nth_error pss i = Some cs /\ os = repeat OSeq (List.length cs)) /\
+    store_ok R_v1 Imp_v1 (fst (run sched (v1_scenario env pss))).
+Proof. exact v1_linearizable. Qed.
+Print Assumptions C20_v1_linearizable.
+
+(* ... and [OSeq] is what the load returns when run alone (C20_memo_sequential instantiated): it terminates *)
+Theorem C20_v1_sequential :
+  forall (env : v1env) (tid c : nat), v1_no_paths env ->
+  forall s it, store_ok R_v1 Imp_v1 s ->
+    exists n s' it', solo n s (mkT (call_v1_load tid env c) it) = (s', mkT (Ret [OSeq]) it') /\ store_ok R_v1 Imp_v1 s'.
+Proof.
+  intros env tid c Hnp s it Hs.
+  apply (memo_sequential R_v1 Imp_v1 [] _ _ (v1_load_plain env tid c [] Hnp) s it Hs).
+  intros T k [].
+Qed.
+Print Assumptions C20_v1_sequential.
+
+(* non-vacuity: Inner; Outer (nested Inner, a default); a wizard class with nested Inner and a CatchAll field;
+   all with a key-case transform; three threads load the three classes, a concrete interleaving finishes *)
+Example C20_v1_nonvacuous : v1_no_paths env_v1_nested.
+Proof. repeat constructor. Qed.
+Example C20_v1_runs :
+  outcomes (run (micro_of RUN_FUEL [0;1;2;0;1;2;0;1;2;0;1;2;2;2;1;1;0;0;0;0;0;0;0;1;1;1;1;2;2;2;2;0;1;2]
+                   (v1_scenario env_v1_nested [[1]; [2; 0]; [0; 1]]) ++ repeat 0 400 ++ repeat 1 400 ++ repeat 2 400)
+              (v1_scenario env_v1_nested [[1]; [2; 0]; [0; 1]]))
+  = [Some [OSeq]; Some [OSeq; OSeq]; Some [OSeq; OSeq]].
+Proof. vm_compute. reflexivity. Qed.
+
+(* 8b. The v1 site of the open defect F31: `set_paths = False if dataclass_field_to_path else True` in
+       _setup_v1_load_config_for_cls takes the AliasPath table another thread is still filling for a
+       complete one; the second thread compiles the remaining path field as an ordinary key ->
+       MissingFields, which neither sequential order gives. *)
+Theorem C20_v1_refuted_path_fill :
+  (exists sched,
+     outcomes (run sched cfg_v1_paths) = [Some [OSeq]; Some [OErr EMissingFields]] /\
+     outcomes (run sequential2 cfg_v1_paths) = [Some [OSeq]; Some [OSeq]] /\
+     outcomes (run sequential2' cfg_v1_paths) = [Some [OSeq]; Some [OSeq]]) /\
+  (* the partial function stored LAST: the class stays half-initialised, every later load fails too *)
+  (exists sched,
+     outcomes (run sched cfg_v1_paths_persist)
+       = [Some [OSeq]; Some [OErr EMissingFields; OErr EMissingFields]; Some [OErr EMissingFields]] /\
+     outcomes (run (repeat 0 400 ++ repeat 1 400 ++ repeat 2 400) cfg_v1_paths_persist)
+       = [Some [OSeq]; Some [OSeq; OSeq]; Some [OSeq]]).
+Proof.
+  split.
+  - exists (micro_of RUN_FUEL seg_v1_paths cfg_v1_paths ++ sequential2). vm_compute. repeat split.
+  - exists (micro_of RUN_FUEL seg_v1_paths_persist cfg_v1_paths_persist ++ repeat 1 400 ++ repeat 2 400).
+    vm_compute. repeat split.
+Qed.
+Print Assumptions C20_v1_refuted_path_fill.
